@@ -122,7 +122,7 @@ func (d *PathDecoder) candidatesFromHooks(ctx context.Context, attr *hclsyntax.A
 		return candidates
 	}
 
-	editRng := attr.Expr.Range()
+	editRng := closedRange(attr.Expr.Range())
 	if isEmptyExpression(attr.Expr) || isMultilineTemplateExpr(attr.Expr) {
 		// An empty expression or a string without a closing quote will lead to
 		// an attribute expression spanning multiple lines.
